@@ -276,7 +276,7 @@ Definition ozeqb (a : option Z) (b : option Z) : bool :=
 
 (* Gaussian rationals (pairs of Q, compared with Qeq) as an executable instance of rk_ring, used by
    the correspondence run to evaluate the Runge-Kutta models at rational points *)
-From Coq Require Import QArith.
+From Coq Require Import QArith Qround.
 Definition GQ := (Q * Q)%type.
 Definition gq_add (x y : GQ) : GQ := (Qred (fst x + fst y), Qred (snd x + snd y))%Q.
 Definition gq_mul (x y : GQ) : GQ :=
@@ -287,3 +287,36 @@ Definition gq_eqb (x y : GQ) : bool := Qeq_bool (fst x) (fst y) && Qeq_bool (snd
 Definition gq_ring : rk_ring GQ :=
   mk_rk GQ (gq_of 0) (gq_of 1) gq_add gq_mul gq_opp (0%Q, 1%Q)
         (gq_of (1 # 2)) (gq_of (1 # 3)) (gq_of (1 # 5)) (gq_of (1 # 11)) (gq_of (1 # 13)) (gq_of (1 # 19)).
+
+(* ------------------------------------------------------------------ repeated executions (histories) *)
+(* exact rational times: the correspondence uses dyadic dt, T, t0, for which the float arithmetic of
+   `self.t += self.dt` and `t / total_time` is exact *)
+Definition qsteps (t0 T dt : Q) : nat := Z.to_nat (Qfloor ((T - t0) / dt + (1 # 2))).   (* round, no ties in the tests *)
+Definition qtime (t0 dt : Q) (j : nat) : Q := Qred (t0 + inject_Z (Z.of_nat j) * dt).
+(* times at which the solver evaluates its Hamiltonian callable during StateEvolution.execute:
+   `self.solver.t = start_time` evaluates at t0; every step evaluates the stage times and, through
+   `self.t += self.dt`, the new time *)
+Definition exp_eval_times (t0 T dt : Q) : list Q :=
+  qtime t0 dt 0 :: map (fun j => qtime t0 dt j) (seq 1 (qsteps t0 T dt)).
+Definition rk4_eval_times (t0 T dt : Q) : list Q :=
+  qtime t0 dt 0 :: flat_map (fun j => [Qred (qtime t0 dt j + dt * (1 # 2)); qtime t0 dt (S j); qtime t0 dt (S j)])
+                            (seq 0 (qsteps t0 T dt)).
+(* the object state that matters across executions: hamiltonian.total_time *)
+Definition ad_state := option Q.
+(* AdiabaticEvolution.execute(final_time): total_time := final_time (start_time must be 0); the schedule
+   is called with t / total_time at every evaluation time t <> 0 (at t = 0 h0 is returned directly) *)
+Definition ad_execute (st : ad_state) (T : Q) (times : list Q) : ad_state * list Q :=
+  (Some T, map (fun t => Qred (t / T)) (filter (fun t => negb (Qeq_bool t 0)) times)).
+Fixpoint ad_history (st : ad_state) (runs : list (Q * list Q)) : list (list Q) :=
+  match runs with
+  | [] => []
+  | (T, times) :: rest => let '(st', args) := ad_execute st T times in args :: ad_history st' rest
+  end.
+(* HISTORICAL shape of the seeded defect class: total_time only set when it is None *)
+Definition ad_execute_stale (st : ad_state) (T : Q) (times : list Q) : ad_state * list Q :=
+  let T' := match st with Some T0 => T0 | None => T end in
+  (Some T', map (fun t => Qred (t / T')) (filter (fun t => negb (Qeq_bool t 0)) times)).
+Definition qlist_eqb (a b : list Q) : bool := list_eqb Qeq_bool a b.
+(* TrotterizedExponential on an adiabatic Hamiltonian: circuit(dt, t) at the step time, then the setter *)
+Definition trotter_eval_times (t0 T dt : Q) : list Q :=
+  qtime t0 dt 0 :: flat_map (fun j => [qtime t0 dt j; qtime t0 dt (S j)]) (seq 0 (qsteps t0 T dt)).
